@@ -70,6 +70,7 @@ def main():
                     os.remove(m.group(1))
         finally:
             sh('git -C /repo checkout -- .')
+            sh('git checkout -- evidence', cwd=V)      # evidence written while the change was applied is not evidence
         dst = os.path.join(V, 'seeded', '%s-%s' % (a.pid, x))
         os.makedirs(dst, exist_ok=True)
         shutil.copy(diff, os.path.join(dst, 'patch.diff')); shutil.copy(demo, os.path.join(dst, 'demo.py'))
